@@ -124,6 +124,12 @@ func (m *bridgeModel) payload(kind, proposer string, salt int) (msg voteMsg, ok 
 	switch kind {
 	case "hashes":
 		n := 1 + salt%3
+		switch salt % 8 {
+		case 7:
+			n = 0 // an empty batch passes validation: it changes nothing but is a voted proposal like any other
+		case 6:
+			n = 16 // the largest batch
+		}
 		mm := &bitcointypes.MsgNewBlockHashes{Proposer: proposer, StartBlockNumber: m.tip + 1}
 		for i := 0; i < n; i++ {
 			mm.BlockHash = append(mm.BlockHash, world.Derive(m.seed, fmt.Sprintf("hash/%d/%d", m.tip, salt), i))
@@ -177,9 +183,13 @@ func (m *bridgeModel) accepted(msg voteMsg) {
 func mutatePayload(msg voteMsg) {
 	switch t := msg.(type) {
 	case *bitcointypes.MsgNewBlockHashes:
+		if len(t.BlockHash) == 0 {
+			t.BlockHash = [][]byte{world.Derive(7, "mut-hash", int(t.StartBlockNumber))}
+			return
+		}
 		h := append([]byte(nil), t.BlockHash[0]...)
 		h[0] ^= 1
-		t.BlockHash[0] = h
+		t.BlockHash = append([][]byte{h}, t.BlockHash[1:]...)
 	case *bitcointypes.MsgNewPubkey:
 		t.Pubkey = world.BtcPubKey(world.Derive(7, "mut", len(t.Pubkey.String())), false)
 	case *bitcointypes.MsgProcessWithdrawal:
